@@ -225,6 +225,11 @@ pub fn gen_exchange(t: &mut Tape, allow_close: bool) -> ExchangeSpec {
     };
     let resp = gen_response(t, &method, status, allow_close);
     let mut extra_headers = vec![];
+    if t.chance(25) {
+        // credentials first: a redirect suppresses them, whatever follows them must still be written once and in order
+        extra_headers.push(("cookie".to_string(), "k=v".to_string()));
+        extra_headers.push(("authorization".to_string(), "Basic abc".to_string()));
+    }
     for i in 0..t.weighted(&[3, 2, 1]) {
         extra_headers.push((format!("x-h{}", i), "v".repeat(t.range(0, 30))));
     }
